@@ -400,8 +400,28 @@ func c02Strings(c *Ctx, tr *an.Tracer, RS, RM, kp string) {
 					}
 					return 0, false
 				}
-				pad, ok, reach := evalAt(pop, padMake.Len, atom)
 				want := (4 - (tc.hdr+tc.size)%4) % 4
+				// admission: with exactly the string and its padding left in the input, nothing refuses it
+				inner := atom
+				left := tc.size + want
+				atom = func(v ssa.Value) (int64, bool) {
+					if call, ok := v.(*ssa.Call); ok {
+						if n := an.CalleeName(call.Common()); n == "(*bytes.Reader).Len" || n == "(*bytes.Buffer).Len" {
+							return left, true
+						}
+					}
+					return inner(v)
+				}
+				pad, ok, reach := evalAt(pop, padMake.Len, atom)
+				for _, b := range pop.Blocks {
+					for _, in := range b.Instrs {
+						if ms, isMs := in.(*ssa.MakeSlice); isMs && ms != padMake {
+							if _, isConst := an.ConstInt(ms.Len); !isConst && !reach[b] {
+								bad = append(bad, sprintf("first=%d size=%d with exactly %d bytes left: the string is refused before it is read (a bound stricter than its own length plus padding)", tc.first, tc.size, left))
+							}
+						}
+					}
+				}
 				if want == 0 {
 					if reach[padMake.Block()] {
 						bad = append(bad, sprintf("first=%d size=%d: padding is read although the string is aligned", tc.first, tc.size))
